@@ -4,6 +4,7 @@ import (
 	"crypto/tls"
 	"fmt"
 	"io"
+	"runtime"
 	"sort"
 	"strings"
 	"sync"
@@ -11,8 +12,8 @@ import (
 	"time"
 
 	"github.com/fiorix/go-diameter/v4/diam"
-	"github.com/fiorix/go-diameter/v4/diam/dict"
 	"github.com/fiorix/go-diameter/v4/diam/datatype"
+	"github.com/fiorix/go-diameter/v4/diam/dict"
 )
 
 // The server world: diam.Server.Serve over a SimListener (and optionally
@@ -20,39 +21,39 @@ import (
 // that park until the engine releases them. Used by C08, C09, C15 and C16.
 
 type srvCfg struct {
-	prop       string
-	nConns     int
-	nDialled   int
-	msgsPer    [2]int // min,max messages per connection
-	parkPct    int    // % of handlers that park until released
-	answerPct  int    // % of requests the handler answers
-	wideHdr    bool   // C16: boundary ids, all flag bytes
-	table      bool   // C09: drawn registration table instead of a single ALL handler
-	rereg      bool   // C09: re-registrations between messages
-	panicPct   int    // C15: % of messages whose handler panics (on faulty conns)
-	malformed  bool   // C15
-	rst        bool   // C15
-	acceptErrs bool   // C15
-	lateConn   bool   // C15: a connection opened after all faults
-	bigMsgs    bool
-	yields     bool // park serve loops at yield sites
-	extraReg   bool // register unrelated handlers while the server runs
-	cnTasks    bool // CloseNotify requested from other goroutines
-	deferPct   int  // % of answers built and written later by another goroutine
-	doubleConn bool // two connections may reach the listener before it is served
-	stallPct   int  // % of synchronous answers whose transport write stalls until resumed
-	largePct   int  // % of requests (hence echoed answers) larger than the 1 KiB pooled write buffer
-	lazyResume bool // stalled writes are resumed reluctantly, so that several pile up
-	sched      []schedTok // enumerated schedule (C08 sweep): what the engine does, step by step
-	parkMask   int        // with sched: bit (2*conn+msg) set = that handler parks until released
-	tableForce *tableForce // enumerated registration table and message (C09 sweep)
-	malformedOnly []int // restrict undecodable messages to these kinds (indexes into malformedKinds)
-	bareDict   bool // the connections use a dictionary that defines the commands and the harness's AVPs but no base AVPs (no Result-Code)
-	idxRegs    bool // besides the catch-all, exact-index handlers for some commands (every message still has a handler)
-	nilHandler bool // the Server (and dialled connections) get a nil Handler: diam.DefaultServeMux serves
-	tlsStall   bool // one more peer connects over TLS and never gets through its handshake
-	force      *srvForce // enumerated fault placement (sweep)
-	hdr        *hdrForce // enumerated request header (C16 sweep)
+	prop          string
+	nConns        int
+	nDialled      int
+	msgsPer       [2]int // min,max messages per connection
+	parkPct       int    // % of handlers that park until released
+	answerPct     int    // % of requests the handler answers
+	wideHdr       bool   // C16: boundary ids, all flag bytes
+	table         bool   // C09: drawn registration table instead of a single ALL handler
+	rereg         bool   // C09: re-registrations between messages
+	panicPct      int    // C15: % of messages whose handler panics (on faulty conns)
+	malformed     bool   // C15
+	rst           bool   // C15
+	acceptErrs    bool   // C15
+	lateConn      bool   // C15: a connection opened after all faults
+	bigMsgs       bool
+	yields        bool        // park serve loops at yield sites
+	extraReg      bool        // register unrelated handlers while the server runs
+	cnTasks       bool        // CloseNotify requested from other goroutines
+	deferPct      int         // % of answers built and written later by another goroutine
+	doubleConn    bool        // two connections may reach the listener before it is served
+	stallPct      int         // % of synchronous answers whose transport write stalls until resumed
+	largePct      int         // % of requests (hence echoed answers) larger than the 1 KiB pooled write buffer
+	lazyResume    bool        // stalled writes are resumed reluctantly, so that several pile up
+	sched         []schedTok  // enumerated schedule (C08 sweep): what the engine does, step by step
+	parkMask      int         // with sched: bit (2*conn+msg) set = that handler parks until released
+	tableForce    *tableForce // enumerated registration table and message (C09 sweep)
+	malformedOnly []int       // restrict undecodable messages to these kinds (indexes into malformedKinds)
+	bareDict      bool        // the connections use a dictionary that defines the commands and the harness's AVPs but no base AVPs (no Result-Code)
+	idxRegs       bool        // besides the catch-all, exact-index handlers for some commands (every message still has a handler)
+	nilHandler    bool        // the Server (and dialled connections) get a nil Handler: diam.DefaultServeMux serves
+	tlsStall      bool        // one more peer connects over TLS and never gets through its handshake
+	force         *srvForce   // enumerated fault placement (sweep)
+	hdr           *hdrForce   // enumerated request header (C16 sweep)
 }
 
 // schedTok is one step of an enumerated schedule: deliver the next whole message of a
@@ -80,9 +81,9 @@ type hdrForce struct {
 
 // srvForce pins where and what the single fault of a run is.
 type srvForce struct {
-	conn, pos int
-	kind      string // "panic", "rst-mid" or "malformed"
-	malformed int    // index into the malformed kinds
+	conn, pos  int
+	kind       string // "panic", "rst-mid" or "malformed"
+	malformed  int    // index into the malformed kinds
 	acceptErrs int
 }
 
@@ -96,38 +97,38 @@ type plan struct {
 }
 
 type sentMsg struct {
-	ref     RefMsg
-	bytes   []byte
-	start   int // offset in the connection's byte stream
-	plan    plan
-	bad     string // non-empty: a malformed item of this kind
-	entered bool
-	exited  bool
+	ref           RefMsg
+	bytes         []byte
+	start         int // offset in the connection's byte stream
+	plan          plan
+	bad           string // non-empty: a malformed item of this kind
+	entered       bool
+	exited        bool
 	unhandledDone bool // consumed with no matching registration (C09)
 }
 
 type peerConn struct {
-	idx      int
-	name     string
-	sc       *SimConn
-	stream   []byte // everything the peer will send
-	sent     int    // bytes delivered so far
-	msgs     []*sentMsg
-	end      string // "", "eof", "rst" (after stream), "rst-mid"
-	endAt    int    // for rst-mid: offset at which the reset happens
-	ended    bool
-	dialled  bool
-	faulty   bool // a fault was planned on this connection
-	faultAt  int  // index of the first faulty message (-1 none)
-	connected bool
-	recv     []byte
-	answers  []RefMsg
-	late     bool
+	idx        int
+	name       string
+	sc         *SimConn
+	stream     []byte // everything the peer will send
+	sent       int    // bytes delivered so far
+	msgs       []*sentMsg
+	end        string // "", "eof", "rst" (after stream), "rst-mid"
+	endAt      int    // for rst-mid: offset at which the reset happens
+	ended      bool
+	dialled    bool
+	faulty     bool // a fault was planned on this connection
+	faultAt    int  // index of the first faulty message (-1 none)
+	connected  bool
+	recv       []byte
+	answers    []RefMsg
+	late       bool
 	closedSeen bool
-	dc diam.Conn // the diam.Conn of this connection once known
-	guaranteed int // stream bytes the library is known to have received (after a reset: those read before it)
-	wasReset bool
-	tls      bool // served through crypto/tls; the peer never completes the handshake
+	dc         diam.Conn // the diam.Conn of this connection once known
+	guaranteed int       // stream bytes the library is known to have received (after a reset: those read before it)
+	wasReset   bool
+	tls        bool // served through crypto/tls; the peer never completes the handshake
 }
 
 type invocation struct {
@@ -143,34 +144,34 @@ type invocation struct {
 }
 
 type srvWorld struct {
-	e     *Env
-	cfg   srvCfg
-	mux   *diam.ServeMux
-	lis   *SimListener
-	conns []*peerConn
+	e        *Env
+	cfg      srvCfg
+	mux      *diam.ServeMux
+	lis      *SimListener
+	conns    []*peerConn
 	serveRet chan error
 	served   bool
 
-	mu      sync.Mutex
-	invs    []*invocation
-	parked  []*invocation
-	regs    refRegs
-	regVer  int
-	nextH   int
-	reports []*diam.ErrorReport
-	stepReports []*diam.ErrorReport
-	unknownEnter int
-	yielded []*yieldPark
-	regHist map[int]refRegs
-	needClock bool
-	reregLeft int
-	panicKind int // what handlers of this run panic with
-	schedPos  int
-	extraRegLeft int
-	cnLeft int
-	deferred []*invocation
-	yieldsOff atomic.Bool
-	closing   atomic.Bool
+	mu              sync.Mutex
+	invs            []*invocation
+	parked          []*invocation
+	regs            refRegs
+	regVer          int
+	nextH           int
+	reports         []*diam.ErrorReport
+	stepReports     []*diam.ErrorReport
+	unknownEnter    int
+	yielded         []*yieldPark
+	regHist         map[int]refRegs
+	needClock       bool
+	reregLeft       int
+	panicKind       int // what handlers of this run panic with
+	schedPos        int
+	extraRegLeft    int
+	cnLeft          int
+	deferred        []*invocation
+	yieldsOff       atomic.Bool
+	closing         atomic.Bool
 	trailingHandled int
 }
 
@@ -298,8 +299,11 @@ func (w *srvWorld) handler(hname string) diam.HandlerFunc {
 				panic(fmt.Errorf("sim: handler panic (error value) c%d/m%d", inv.conn, inv.seq))
 			case 2:
 				panic(simSliceErr{"sim", "handler panic", "slice-typed error"})
-			default:
+			case 3:
 				panic(map[string]int{"sim: handler panic": inv.seq})
+			default:
+				// not a panic at all: the handler ends its goroutine (the connection is over all the same)
+				runtime.Goexit()
 			}
 		}
 	}
@@ -742,7 +746,7 @@ func (w *srvWorld) runInner() {
 		}
 	}
 	if cfg.panicPct > 0 {
-		w.panicKind = t.Draw(4)
+		w.panicKind = t.Draw(5)
 	}
 	if !w.quiesceAndCheck() {
 		return
@@ -1235,7 +1239,6 @@ func (w *srvWorld) checkHistory(final bool) bool {
 	return true
 }
 
-
 func (w *srvWorld) expectHandlerAt(sm *sentMsg, ver int) string {
 	// The engine changes the table only when no handler is active and the system
 	// is quiescent, so every invocation observed the table current at that time;
@@ -1380,6 +1383,15 @@ func (w *srvWorld) teardown() {
 		e.Quiesce()
 		if len(yl) == 0 && len(parked) == 0 {
 			break
+		}
+	}
+	if !e.Failed() {
+		for _, pc := range w.conns {
+			// the TLS peer has hung up in the middle of its handshake: that connection is over
+			if pc.tls && pc.connected && !pc.sc.Closed() {
+				e.Fail("C15/faulty-connection-not-closed/tls-handshake-failed", "%s: the peer disconnected during the TLS handshake and the server did not close the transport", pc.name)
+				break
+			}
 		}
 	}
 }
